@@ -2,6 +2,7 @@
 operator / preconditioner callbacks, with curvature faults injected at the A
 callback. Oracles come from the dense Krylov reference (refmodels.krylov)."""
 import copy
+import random
 from collections import Counter
 
 import numpy as np
@@ -114,6 +115,12 @@ class CGWorld(World):
             b = (bv if cplx else np.real(bv)).astype(dt)
         else:
             b = common.randn(g, (n,), cplx, dt)
+        # the right-hand side stored narrower than the operator and the caller's x (single-precision
+        # measurements, double-precision solve): legal, the recurrences run in the promoted type.
+        # (own generator: the plans of all other sessions stay what they were)
+        k["b_narrow"] = k["prec"] == "double" and not k["x_narrow"] and random.Random("cg-bnarrow:%d" % seed).random() < 0.08
+        if k["b_narrow"]:
+            b = b.astype(np.complex64 if cplx else np.float32)
         if k["x0kind"] == "zero":
             x0 = np.zeros(n, dtype=dt)
         elif k["x0kind"] == "exact":
@@ -221,6 +228,8 @@ class CGWorld(World):
             # to the caller's precision); only where the solution is written is judged
             x_caller = x_caller.astype(np.complex64 if np.iscomplexobj(x_caller) else np.float32)
             stats["buggify.x_narrower_than_b"] += 1
+        if k.get("b_narrow"):
+            stats["buggify.b_narrower_than_x"] += 1
         if k.get("views"):
             x_caller = common.as_view(x_caller)
             b = common.as_view(b)
@@ -506,7 +515,7 @@ class CGWorld(World):
         res.fingerprint = codec.json_digest([
             k["klass"], prec, bool(k["complex"]), n, k["family"], k["Aform"], k["Pkind"], k.get("Pform"),
             k["shape"], k["bkind"], k["x0kind"], k.get("A_ret"), k.get("P_ret"), bool(k.get("interfere")),
-            bool(k.get("x_narrow")), bool(k.get("views")), plan["max_iter"],
+            bool(k.get("x_narrow")), bool(k.get("b_narrow")), bool(k.get("views")), plan["max_iter"],
             plan["tol"] > 0, [f["kind"] for f in plan.get("faults", [])], common.compress_actions(acts),
         ])
         if Aproxy is not None:
